@@ -196,6 +196,48 @@ def norm(node):
     return re.sub(r'\s+', ' ', src(node)).strip()
 
 
+def resolved(f, node, depth=3):
+    """normalised text of an expression of function f with every local that f binds exactly once, by a plain
+    `name = <expression>` statement, replaced by that expression (so `l = len(data); g(l << 1)` and `g(len(data) << 1)`
+    read alike).  Locals bound more than once, loop variables and parameters stay as they are."""
+    import copy
+    stores, defs = {}, {}
+    for n in ast.walk(f):
+        if isinstance(n, ast.Name) and isinstance(n.ctx, (ast.Store, ast.Del)):
+            stores[n.id] = stores.get(n.id, 0) + 1
+        elif isinstance(n, ast.Assign) and len(n.targets) == 1 and isinstance(n.targets[0], ast.Name):
+            defs.setdefault(n.targets[0].id, []).append(n.value)
+    params = {a.arg for n in ast.walk(f) if isinstance(n, ast.arguments) for a in n.posonlyargs + n.args + n.kwonlyargs}
+    single = {k: v[0] for k, v in defs.items() if len(v) == 1 and stores.get(k) == 1 and k not in params}
+
+    class _R(ast.NodeTransformer):
+        def __init__(self, d):
+            self.d = d
+
+        def visit_Name(self, n):
+            if isinstance(n.ctx, ast.Load) and n.id in single and self.d > 0:
+                return _R(self.d - 1).visit(copy.deepcopy(single[n.id]))
+            return n
+    return norm(_R(depth).visit(copy.deepcopy(node)))
+
+
+def return_values(f):
+    """the expressions f may return: the value of every `return` (nested defs excluded), a conditional expression
+    counted as its two arms - `return a if c else b` and `if c: return a / else: return b` give the same list"""
+    out = []
+
+    def arms(e):
+        if isinstance(e, ast.IfExp):
+            arms(e.body)
+            arms(e.orelse)
+        else:
+            out.append(e)
+    for st in walk_no_nested(f):
+        if isinstance(st, ast.Return) and st.value is not None:
+            arms(st.value)
+    return out
+
+
 def calls_in(node):
     for n in ast.walk(node):
         if isinstance(n, ast.Call):
